@@ -28,14 +28,24 @@
 //
 //	ZF <layout hex | -> <unix sec> <nsec> <zone offset sec> | same|zero|lost
 //
+// (c) THE KIND OF READER.  Read, ReadUnified and ReadGitPatch take an io.Reader; every stream handed
+// them a *strings.Reader.  `src` (used for every reader call of every line kind) picks the kind of
+// reader from the length of the text, so that the same line always gets the same kind: *strings.Reader,
+// *bytes.Reader, *bytes.Buffer, *bufio.Reader (which bufio.NewReader hands back as it is), a 16-byte
+// *bufio.Reader, one byte per Read, the last bytes returned together with io.EOF, chunks of seven bytes
+// each preceded by a Read that returns (0, nil).  The model reads a text; how it arrives is not its
+// business.
+//
 // Diff.Format and Patch.Format are the documented ways to call a FormatFunc; `format` (main.go) now
 // renders every text a second time through (&mdiff.Diff{Chunks: cs}).Format and reports a
 // difference in place of the text.
 package main
 
 import (
+	"bufio"
 	"bytes"
 	"fmt"
+	"io"
 	"slices"
 	"strconv"
 	"strings"
@@ -254,3 +264,57 @@ func formatVia(f mdiff.FormatFunc, cs []*mdiff.Chunk, fi *mdiff.FileInfo) (strin
 }
 
 var _ = strconv.Itoa
+
+// ---------------------------------------------------------------- reader kinds
+
+type chunkReader struct {
+	s       string
+	k       int  // bytes per Read
+	withEOF bool // the last bytes come together with io.EOF
+	zeros   bool // every chunk is preceded by one Read that returns (0, nil)
+	zero    bool
+}
+
+func (r *chunkReader) Read(p []byte) (int, error) {
+	if len(r.s) == 0 {
+		return 0, io.EOF
+	}
+	if len(p) == 0 {
+		return 0, nil
+	}
+	if r.zeros {
+		if r.zero = !r.zero; r.zero {
+			return 0, nil
+		}
+	}
+	n := min(len(p), r.k, len(r.s))
+	copy(p, r.s[:n])
+	r.s = r.s[n:]
+	if r.withEOF && len(r.s) == 0 {
+		return n, io.EOF
+	}
+	return n, nil
+}
+
+const readerKinds = 8
+
+// src: a reader over text, its kind chosen by the length of the text
+func src(text string) io.Reader {
+	switch len(text) % readerKinds {
+	case 1:
+		return bytes.NewReader([]byte(text))
+	case 2:
+		return bytes.NewBufferString(text)
+	case 3:
+		return bufio.NewReader(strings.NewReader(text))
+	case 4:
+		return bufio.NewReaderSize(strings.NewReader(text), 16)
+	case 5:
+		return &chunkReader{s: text, k: 1}
+	case 6:
+		return &chunkReader{s: text, k: 1 << 20, withEOF: true}
+	case 7:
+		return &chunkReader{s: text, k: 7, zeros: true}
+	}
+	return strings.NewReader(text)
+}
